@@ -130,6 +130,9 @@ def _simple_shape(h):
     return None
 
 
+_MISS = {}
+
+
 def _search_shape(body):
     """-> (prefix statements, loop, default expression) for  [simple...] for ..: [if ..: return x]  [return default]"""
     loops = [i for i, s in enumerate(body) if isinstance(s, ast.For)]
@@ -144,9 +147,16 @@ def _search_shape(body):
             post = list(loop.orelse)
         else:
             return None
+    miss = []
+    if post and isinstance(post[-1], ast.Return) and len(post) > 1:
+        # statements that run when nothing was found, then the final return: the else branch of a for/else
+        miss, post = post[:-1], post[-1:]
+        if any(_has_return(s) or isinstance(s, (ast.For, ast.While, ast.Try, ast.With)) for s in miss):
+            return None
     if len(post) > 1 or (post and not isinstance(post[0], ast.Return)):
         return None
     default = post[0].value if post and post[0].value is not None else ast.Constant(value=None)
+    _MISS[id(loop)] = miss
 
     def ok(stmts):
         for s in stmts:
@@ -175,7 +185,8 @@ def _searchify(body, target_name):
         out = []
         for s in stmts:
             if isinstance(s, ast.Return):
-                out.append(ast.Assign(targets=[ast.Name(id=target_name, ctx=ast.Store())], value=s.value))
+                if not (isinstance(s.value, ast.Name) and s.value.id == target_name):
+                    out.append(ast.Assign(targets=[ast.Name(id=target_name, ctx=ast.Store())], value=s.value))
                 out.append(ast.Break())
                 return out
             if isinstance(s, ast.If):
@@ -183,6 +194,12 @@ def _searchify(body, target_name):
             else:
                 out.append(s)
         return out
+    miss = _MISS.get(id(loop)) or []
+    if miss:
+        # for ..: if c: x = e; break   else: <miss>; x = default
+        tail = [] if (isinstance(default, ast.Name) and default.id == target_name) else [ast.Assign(targets=[ast.Name(id=target_name, ctx=ast.Store())], value=default)]
+        new_loop = ast.For(target=loop.target, iter=loop.iter, body=conv(loop.body), orelse=list(miss) + tail, type_comment=None)
+        return list(pre) + [new_loop]
     new_loop = ast.For(target=loop.target, iter=loop.iter, body=conv(loop.body), orelse=[], type_comment=None)
     return list(pre) + [ast.Assign(targets=[ast.Name(id=target_name, ctx=ast.Store())], value=default), new_loop]
 
@@ -880,6 +897,8 @@ def comprehensions_to_loops(tree, modname, reference, qualnames_fn):
                 return False
             return True
 
+        uid = [0]
+
         def convert_block(stmts):
             nonlocal count
             out = []
@@ -891,8 +910,65 @@ def comprehensions_to_loops(tree, modname, reference, qualnames_fn):
                         setattr(st, fld, convert_block(blk))
                 for h_ in getattr(st, "handlers", []) or []:
                     h_.body = convert_block(h_.body)
+                # `if [not] any(<new generator>)` : name the result first
+                if isinstance(st, ast.If):
+                    t_ = st.test.operand if isinstance(st.test, ast.UnaryOp) and isinstance(st.test.op, ast.Not) else st.test
+                    if isinstance(t_, ast.Call) and isinstance(t_.func, ast.Name) and t_.func.id == "any" and len(t_.args) == 1 and isinstance(t_.args[0], ast.GeneratorExp):
+                        uid[0] += 1
+                        nm = "any__%d" % uid[0]
+                        pre = ast.Assign(targets=[ast.Name(id=nm, ctx=ast.Store())], value=t_)
+                        ast.copy_location(pre, st)
+                        ast.fix_missing_locations(pre)
+                        ref_ = ast.copy_location(ast.Name(id=nm, ctx=ast.Load()), t_)
+                        if t_ is st.test:
+                            st.test = ref_
+                        else:
+                            st.test.operand = ref_
+                        for x_ in convert_block([pre]):
+                            out.append(x_)
+                        out.append(st)
+                        continue
+                # obj.attr = next((e for t in it if c), d)   ->   for t in it: if c: obj.attr = e; break   else: obj.attr = d
+                if isinstance(st, ast.Assign) and len(st.targets) == 1 and isinstance(st.targets[0], ast.Attribute) and _is_simple_arg(st.targets[0]):
+                    v = st.value
+                    if isinstance(v, ast.Call) and isinstance(v.func, ast.Name) and v.func.id == "next" and len(v.args) == 2 and isinstance(v.args[0], ast.GeneratorExp) \
+                            and not v.keywords and len(v.args[0].generators) == 1 and is_new(v.args[0]):
+                        g = v.args[0].generators[0]
+                        body = [ast.Assign(targets=[copy.deepcopy(st.targets[0])], value=v.args[0].elt), ast.Break()]
+                        for cnd in reversed(list(g.ifs)):
+                            body = [ast.If(test=cnd, body=body, orelse=[])]
+                        loop = ast.For(target=g.target, iter=g.iter, body=body, orelse=[ast.Assign(targets=[copy.deepcopy(st.targets[0])], value=v.args[1])], type_comment=None)
+                        ast.fix_missing_locations(loop)
+                        _relocate([loop], getattr(st, "lineno", 0), 0)
+                        out.append(loop)
+                        count += 1
+                        continue
                 if isinstance(st, ast.Assign) and len(st.targets) == 1 and isinstance(st.targets[0], ast.Name):
                     v = st.value
+                    # x = next((e for t in it if c), d)   /   x = any(c for t in it)   ->   x = d; for t in it: if c: x = e; break
+                    if isinstance(v, ast.Call) and isinstance(v.func, ast.Name) and v.func.id in ("next", "any") and v.args and isinstance(v.args[0], ast.GeneratorExp) \
+                            and not v.keywords and len(v.args[0].generators) == 1 and is_new(v.args[0]):
+                        g = v.args[0].generators[0]
+                        tgt = st.targets[0].id
+                        if v.func.id == "next" and len(v.args) == 2:
+                            default, found, conds_ = v.args[1], v.args[0].elt, list(g.ifs)
+                        elif v.func.id == "any" and len(v.args) == 1:
+                            default, found, conds_ = ast.Constant(value=False), ast.Constant(value=True), list(g.ifs) + [v.args[0].elt]
+                        else:
+                            default = None
+                        if default is not None:
+                            body = [ast.Assign(targets=[ast.Name(id=tgt, ctx=ast.Store())], value=found), ast.Break()]
+                            for cnd in reversed(conds_):
+                                body = [ast.If(test=cnd, body=body, orelse=[])]
+                            new = [ast.Assign(targets=[ast.Name(id=tgt, ctx=ast.Store())], value=default),
+                                   ast.For(target=g.target, iter=g.iter, body=body, orelse=[], type_comment=None)]
+                            for x in new:
+                                ast.fix_missing_locations(x)
+                            _relocate(new, getattr(st, "lineno", 0), 0)
+                            new[1]._search_flag = tgt
+                            out.extend(new)
+                            count += 1
+                            continue
                     if isinstance(v, ast.GeneratorExp) and is_new(v):
                         uses = [n for n in ast.walk(fn) if isinstance(n, ast.Name) and n.id == st.targets[0].id and isinstance(n.ctx, ast.Load)]
                         if len(uses) == 1:
@@ -934,6 +1010,47 @@ def comprehensions_to_loops(tree, modname, reference, qualnames_fn):
             if gens:
                 keep = [g[1] for g in gens.values()]
                 out = keep + out
-            return out
+            return _flag_loops_to_for_else(out, fn)
         fn.body = convert_block(fn.body)
     return count
+
+
+def _flag_loops_to_for_else(stmts, fn):
+    """x = d; for ..: if c: x = e; break      followed by   if x is not None / if x / if not x / if x is None: A [else: B]
+    (the search loop generated above)  ->  for ..: if c: x = e; A; break  [else: B]"""
+    out = []
+    i = 0
+    while i < len(stmts):
+        st = stmts[i]
+        flag = getattr(st, "_search_flag", None)
+        if flag is not None and i + 1 < len(stmts) and isinstance(stmts[i + 1], ast.If):
+            nxt = stmts[i + 1]
+            t = nxt.test
+            found_when = None
+            if isinstance(t, ast.Name) and t.id == flag:
+                found_when = True
+            elif isinstance(t, ast.UnaryOp) and isinstance(t.op, ast.Not) and isinstance(t.operand, ast.Name) and t.operand.id == flag:
+                found_when = False
+            elif isinstance(t, ast.Compare) and len(t.ops) == 1 and isinstance(t.left, ast.Name) and t.left.id == flag and isinstance(t.comparators[0], ast.Constant) and t.comparators[0].value is None:
+                found_when = isinstance(t.ops[0], ast.IsNot) if isinstance(t.ops[0], (ast.Is, ast.IsNot)) else None
+            other_uses = [n for n in ast.walk(fn) if isinstance(n, ast.Name) and n.id == flag and isinstance(n.ctx, ast.Load) and not any(n is y for y in ast.walk(nxt.test))]
+            uses_in_arms = [n for n in other_uses if any(n is y for y in ast.walk(nxt))]
+            if found_when is not None and len(other_uses) == len(uses_in_arms):
+                found_arm, miss_arm = (nxt.body, nxt.orelse) if found_when else (nxt.orelse, nxt.body)
+                # put the found-arm in front of the break
+                inner = st.body
+                while inner and isinstance(inner[-1], ast.If) and not inner[-1].orelse:
+                    inner = inner[-1].body
+                if inner and isinstance(inner[-1], ast.Break):
+                    inner[-1:] = list(found_arm) + [inner[-1]]
+                    st.orelse = list(miss_arm)
+                    # the initial `x = default` is dead when x is only read inside the found-arm
+                    if out and isinstance(out[-1], ast.Assign) and len(out[-1].targets) == 1 and isinstance(out[-1].targets[0], ast.Name) and out[-1].targets[0].id == flag \
+                            and not any(isinstance(n, ast.Name) and n.id == flag and isinstance(n.ctx, ast.Load) for arm_st in miss_arm for n in ast.walk(arm_st)):
+                        out.pop()
+                    out.append(st)
+                    i += 2
+                    continue
+        out.append(st)
+        i += 1
+    return out
